@@ -349,6 +349,24 @@ func runC02(c *Ctx) {
 							}
 						}
 					}
+					// handed to a function that may return it unchanged, whose result is re-heighted right afterwards: what
+					// comes back - the node itself or the root of a rotation - has its height recomputed before it flows
+					// upwards, provided the callee does not itself consume the receiver's cached height
+					if !refreshed && strings.HasPrefix(esc.what, "is handed to") && esc.idx < len(p.Events) {
+						call := &p.Events[esc.idx]
+						if cal := c.P.BySSA[call.SSAFn]; cal != nil && call.Res != nil && !readsOwnHeight(c, cal, a) {
+							for i := esc.idx + 1; i < len(p.Events); i++ {
+								e := &p.Events[i]
+								if e.Kind == "store" && isFieldAddr(e.Addr, a.nHeight, call.Res) && e.Val.Op == "call" && strings.HasSuffix(e.Val.Sym, "(*node).calcHeight") && e.Val.Args[0].Key() == call.Res.Key() {
+									refreshed = true
+								}
+								// the result must not flow anywhere before that
+								if !refreshed && e.Kind == "store" && e.Val != nil && e.Val.Key() == call.Res.Key() {
+									break
+								}
+							}
+						}
+					}
 					k := fi.Name + "\x00" + "node-" + nodeLabel(X) + "/" + strings.Fields(esc.what)[1]
 					r, has := hr[k]
 					if !has {
@@ -966,6 +984,51 @@ func isNodeStructType(a *avlAnchors, t types.Type) bool {
 	for i := 0; i < st.NumFields(); i++ {
 		if sameField(st.Field(i), a.nLeft) {
 			return true
+		}
+	}
+	return false
+}
+
+// readsOwnHeight: some path of fi reads the cached height field of its own receiver (directly; reading the children's
+// heights through leftHeight/rightHeight is the normal case and does not count).
+func readsOwnHeight(c *Ctx, fi *FuncInfo, a *avlAnchors) bool {
+	fp := c.An.PathsOf(fi.SSA)
+	if fp.Unproven != "" {
+		return true
+	}
+	recv := paramOf(fi, 0)
+	isOwn := func(t *Term) bool {
+		return t != nil && t.Contains(func(x *Term) bool {
+			if x.Op == "load" && len(x.Args) == 1 && isFieldAddr(x.Args[0], a.nHeight, recv) {
+				return true
+			}
+			return x.Op == "field" && sameField(x.Obj, a.nHeight) && len(x.Args) == 1 && x.Args[0].Key() == recv.Key()
+		})
+	}
+	for _, p := range fp.Paths {
+		for _, cd := range p.Conds {
+			if isOwn(cd.T) {
+				return true
+			}
+		}
+		for i := range p.Events {
+			e := &p.Events[i]
+			if e.Kind == "store" && isFieldAddr(e.Addr, a.nHeight, recv) {
+				continue
+			}
+			if isOwn(e.Val) {
+				return true
+			}
+			for _, x := range e.Args {
+				if isOwn(x) {
+					return true
+				}
+			}
+		}
+		for _, r := range p.Rets {
+			if isOwn(r) {
+				return true
+			}
 		}
 	}
 	return false
